@@ -214,6 +214,9 @@ class GenericPlainRegistry(Generic[QuantityT, UnitT], metaclass=RegistryMeta):
     Unit: type[UnitT]
 
     _diskcache = None
+
+    #: set when define() replaces a definition of a registry that is already in use
+    _redefined_after_init = False
     _def_parser = None
 
     def __init__(
@@ -481,6 +484,14 @@ class GenericPlainRegistry(Generic[QuantityT, UnitT], metaclass=RegistryMeta):
         else:
             self._helper_dispatch_adder(definition)
 
+        if self._redefined_after_init:
+            self._redefined_after_init = False
+            # What was computed from the previous definition (root units, factors,
+            # parsed names) must not outlive it. Inside a context that overlays
+            # units the tables in use are rebuilt at every switch anyway.
+            if len(getattr(self._units, "maps", ())) <= 1:
+                self._build_cache()
+
     ############
     # Adders
     # - we first provide some helpers that deal with repetitive task.
@@ -543,6 +554,8 @@ class GenericPlainRegistry(Generic[QuantityT, UnitT], metaclass=RegistryMeta):
                 raise RedefinitionError(key, type(value))
             elif self._on_redefinition == "warn":
                 logger.warning(f"Redefining '{key}' ({type(value)})")
+            if self._initialized:
+                self._redefined_after_init = True
 
         target_dict[key] = value
         if casei_target_dict is not None:
